@@ -34,6 +34,11 @@ pub struct Case {
     /// makes the session long-lived (hundreds to thousands of writes, few live keys)
     #[serde(default)]
     pub warmup: u16,
+    /// number of (one successful 1-write action, one failing action that writes 1-3 facts first) rounds run on
+    /// session 0 after the warm-up: the write log grows by one per round, so failing operations are tried at
+    /// every log length (any size threshold inside the session is crossed by a failing operation)
+    #[serde(default)]
+    pub sweep: u16,
     pub ops: Vec<SOp>,
 }
 
@@ -54,12 +59,13 @@ fn case() -> impl Strategy<Value = Case> {
         script_strategy(),
         prop::collection::vec(sop(), 1..25),
     )
-        .prop_map(|(recipe, subset, script, ops)| Case { recipe, subset, script, warmup: 0, ops })
+        .prop_map(|(recipe, subset, script, ops)| Case { recipe, subset, script, warmup: 0, sweep: 0, ops })
 }
 
 fn long_case() -> impl Strategy<Value = Case> {
-    (case(), prop_oneof![1 => 100u16..340, 2 => 340u16..700]).prop_map(|(mut c, w)| {
+    (case(), prop_oneof![1 => 0u16..340, 1 => 340u16..700], prop_oneof![1 => Just(0u16), 2 => 200u16..1300]).prop_map(|(mut c, w, sw)| {
         c.warmup = w;
+        c.sweep = sw;
         c
     })
 }
@@ -199,6 +205,64 @@ fn check(c: &Case, info: &mut CaseInfo) -> CheckResult {
             fmt_facts(&got),
             fmt_facts(&views[0])
         );
+    }
+    // sweep: failing operations at every write-log length
+    for k in 0..c.sweep {
+        for failing in [false, true] {
+            let nwrites = if failing { 1 + (k % 3) as u8 } else { 1 };
+            let payload = Payload {
+                guard: Guard::None,
+                ops: (0..nwrites).map(|j| FOp::Insert(key_from(((k as u8).wrapping_add(j)) % 12), vec![0xF0 | j, (k % 250) as u8])).collect(),
+                poison: failing,
+            };
+            let mut id: Id = [0xCB; 32];
+            id[2..10].copy_from_slice(&next_id.to_be_bytes());
+            next_id += 1;
+            let mut sink = RecSink::default();
+            let mut msgs = MsgSink::default();
+            let r = sessions[0].action(
+                &rep.client,
+                &mut sink,
+                &mut msgs,
+                ActionScript {
+                    init: false,
+                    dump: false,
+                    publishes: vec![Publish {
+                        id,
+                        kind: Kind::Basic(0),
+                        payload: payload.clone(),
+                    }],
+                },
+            );
+            if failing {
+                match r {
+                    Err(ClientError::PolicyError(PolicyError::Rejected)) => {}
+                    other => fail!(
+                        "C14: session action outcome differs from the model",
+                        "sweep round {k} (after {} warm-up actions): failing action returned {}",
+                        c.warmup,
+                        other.map(|_| "Ok".to_string()).unwrap_or_else(|e| e.to_string())
+                    ),
+                }
+                let got = dump(&mut rep, &mut sessions[0])?;
+                ensure!(
+                    got == views[0],
+                    "C14: a failed session action changed the session's fact view",
+                    "sweep round {k} (after {} warm-up actions):\n got  {}\n want {}",
+                    c.warmup,
+                    fmt_facts(&got),
+                    fmt_facts(&views[0])
+                );
+            } else {
+                r.map_err(|e| Failure::new("C14: a plain session action failed", format!("sweep round {k}: {e}")))?;
+                let v = eval_rule(&id, &payload, &mut views[0]);
+                ensure!(v == Verdict::Accepted, "HARNESS: sweep command rejected by the model", "");
+            }
+        }
+    }
+    if c.sweep > 0 {
+        info.label("failing_ops_at_every_log_length");
+        info.nontrivial();
     }
     for (oi, op) in c.ops.iter().enumerate() {
         let what = format!("op#{oi}");
@@ -403,8 +467,10 @@ pub fn run(ctx: &Ctx) -> ! {
     );
     rep.explore(
         "long_lived_session",
-        "the same after 100-700 plain actions (3 overwriting inserts each over 12 keys) on one session, i.e. a session whose write \
-         log holds hundreds to thousands of entries of which few are live, followed by 1-25 generated ops incl. failing ones",
+        "the same after 0-700 plain actions (3 overwriting inserts each over 12 keys) on one session and a sweep of 200-1300 rounds of \
+         (one successful 1-write action, one failing action that writes 1-3 facts first): a long-lived session whose write log holds \
+         hundreds to thousands of entries of which few are live, with a failing operation at every log length; followed by 1-25 \
+         generated ops",
         long_case,
         ctx.pick(400, 12_000),
         check,
